@@ -1,5 +1,5 @@
 //@PROBE file=src/distance.rs test=verif_probe_distance_c16 clauses=distance
-//@BOUND every vector length 0..=130 x 3 magnitudes (1e-2, 1, 1e3) of pseudo-random values: packing round trip (values + zero padding to a multiple of 8), euclidean / cosine against f64 scalar formulas (1e-4 relative / absolute), symmetry, triangle inequality on triples, cosine range, parallel / opposite / positive scaling; 200 pairs of different lengths (common packed prefix)
+//@BOUND every vector length 0..=130 x 3 magnitudes (1e-2, 1, 1e3) of pseudo-random values: packing round trip (values + zero padding to a multiple of 8; by-value and by-reference conversions alike), euclidean / cosine against f64 scalar formulas (1e-4 relative / absolute), symmetry, triangle inequality on triples, cosine range, parallel / opposite / positive scaling; 200 pairs of different lengths (common packed prefix)
 #[cfg(test)]
 mod verif_probe_distance_c16 {
     // Bounded stand-in for "packing and the distance functions match the scalar definitions" over all lengths up to 130
@@ -28,6 +28,11 @@ mod verif_probe_distance_c16 {
             let (a, b, c) = (gen(len), gen(len), gen(len));
             let ctx = format!("PROBE input: vectors of length {} magnitude {}", len, mag);
             let (fa, fb, fc) = (Feature::from_vec(&a), Feature::from_vec(&b), Feature::from_vec(&c));
+            // the by-value conversion packs exactly like the by-reference one
+            let owned = Feature::from_vec(a.clone());
+            if owned.len() != fa.len() || owned.iter().zip(fa.iter()).any(|(x, y)| x.as_array_ref().iter().map(|v| v.to_bits()).collect::<Vec<_>>() != y.as_array_ref().iter().map(|v| v.to_bits()).collect::<Vec<_>>()) {
+                failures.push(format!("{}: distance.owned_and_borrowed_conversions_pack_alike: {} blocks by value, {} by reference", ctx, owned.len(), fa.len()));
+            }
             // packing round trip
             let back = Vec::from_vec(&fa);
             let want = if len == 0 { back.clone() } else { padded(&a) };
